@@ -494,6 +494,23 @@ func (r *FileRunner) Exec(f []string) (res string) {
 			return "err " + ErrName(err)
 		}
 		return fmt.Sprintf("%d", r.df.Size())
+	case "zeroblock": // F zeroblock <b>: block <b> of the file reads back as zeros (a block that never reached the disk), the rest stays
+		r.damaged = true
+		{
+			b := atoi(f[2])
+			const bs = 32768
+			data, err := os.ReadFile(r.path())
+			if err != nil || (b+1)*bs > len(data) {
+				return "err zeroblock"
+			}
+			r.Close()
+			copy(data[b*bs:(b+1)*bs], make([]byte, bs))
+			_ = os.WriteFile(r.path(), data, 0644)
+			if err := r.reopen(); err != nil {
+				return "err " + ErrName(err)
+			}
+			return fmt.Sprintf("%d", r.df.Size())
+		}
 	case "trunc":
 		r.damaged = true
 		r.Close()
